@@ -250,14 +250,22 @@ H(name="cmd_gen_key_fs", crate="kestrel-cli", mod="commands::verif_cmd", props=[
 # The four commands that move data. Quick tier for C12/C13 (their main subject), thorough tier for the properties they
 # only touch (C05/C07/C02). Each command is split by which keyring entry is named, so that every harness has a concrete
 # keyring shape (a symbolic number of entries ran the solver out of memory at 44 GB).
-for _c, _p in (("cmd_decrypt_flow", ["C12", "C13", "C05", "C10", "C03"]), ("cmd_decrypt_flow_other", ["C12", "C13", "C05"]),
-               ("cmd_encrypt_flow", ["C12", "C13", "C07", "C05", "C10"]), ("cmd_encrypt_flow_other", ["C12", "C13", "C05"]),
-               ("cmd_pass_encrypt_flow", ["C12", "C13", "C07", "C02", "C10"]), ("cmd_pass_decrypt_flow", ["C12", "C13", "C02", "C10", "C03"])):
-    H(name=_c, crate="kestrel-cli", mod="commands::verif_cmd", props=_p, quick_props=["C12", "C13"], est_s=(320 if "pass" not in _c else 220), timeout=2400,
+for _c, _p, _q in (("cmd_decrypt_flow", ["C12", "C13", "C05", "C10", "C03", "C04"], ["C12", "C13", "C10", "C03", "C04"]),
+                   ("cmd_decrypt_flow_other", ["C12", "C13", "C05"], ["C12", "C13"]),
+                   ("cmd_encrypt_flow", ["C12", "C13", "C07", "C05", "C10"], ["C12", "C13", "C10"]),
+                   ("cmd_encrypt_flow_other", ["C12", "C13", "C05"], ["C12", "C13"]),
+                   ("cmd_pass_encrypt_flow", ["C12", "C13", "C07", "C02", "C10"], ["C12", "C13", "C10"]),
+                   ("cmd_pass_decrypt_flow", ["C12", "C13", "C02", "C10", "C03", "C04"], ["C12", "C13", "C10", "C03", "C04"])):
+    H(name=_c, crate="kestrel-cli", mod="commands::verif_cmd", props=_p, quick_props=_q, est_s=(320 if "pass" not in _c else 220), timeout=2400,
       mem_gb=(20 if "pass" not in _c else 14), rlimit_gb=(44 if "pass" not in _c else 30), replay="model",
       desc="command returns Ok iff every pre-check passed and the library call returned Ok (errors of every kind - authentication, trailing data, chunk length, read/write failures incl. BrokenPipe - are never swallowed, success never manufactured); output path untouched unless and until the library writes; then it holds exactly what the library wrote and is never removed or renamed; keys/passwords/salts handed to the library are the ones obtained (sender looked up by the authenticated key; salt = fresh CSPRNG draw)",
       funcs=["commands::" + _c.replace("cmd_", "").replace("_flow", "").replace("_other", ""), "commands::open_input", "commands::open_output", "commands::OnDemandFile"],
       bounds="input file argument (present or missing); output path absent | present (0..4 bytes); keyring missing | two entries (a: with or without private key, b: public only); names a | b | z (absent) split over the harness pair; every outcome of password prompt, unlock, checksum, and of the library call (0..2 writes before any of its error kinds or success)", env=CMD_ENV + ["E-CUT: anyhow replaced by a plain-struct stand-in (harness/env/anyhow-min); Stdout/Stdin methods reachable through Box<dyn Write/Read> accept everything"], outside=CMD_OUT + "; stdin/stdout instead of file arguments")
+for _c in ("cmd_pass_decrypt_stdio", "cmd_pass_decrypt_to_stdout", "cmd_pass_encrypt_stdio", "cmd_pass_encrypt_from_stdin"):
+    H(name=_c, crate="kestrel-cli", mod="commands::verif_cmd", props=["C12", "C13"], est_s=300, timeout=2400, mem_gb=16, rlimit_gb=36, replay="model",
+      desc="the same command with stdin in place of the input file and/or stdout in place of -o: outcome is the same function of pre-checks and library result; nothing is created on disk when stdout is the destination and every library write reaches stdout; refused when the stream in question is a terminal; with every pre-check passing the library is called",
+      funcs=["commands::" + _c.replace("cmd_", "").replace("_stdio", "").replace("_to_stdout", "").replace("_from_stdin", ""), "commands::open_input", "commands::open_output"],
+      bounds="wiring fixed per harness: stdin->stdout, file->stdout (decrypt), stdin->file (encrypt); tty-ness of both streams unconstrained; otherwise as the _flow harness", env=CMD_ENV + ["E-OS: std::io::stdout()/stdin() return an opaque handle; Stdout accepts every write, Stdin is never read by the library model"], outside=CMD_OUT)
 H(name="cmd_change_pass", crate="kestrel-cli", mod="commands::verif_cmd", props=["C16", "C07", "C12"], est_s=120, replay="model",
   desc="change_pass: unlock(given blob, OLD password); lock(THAT key, NEW password, salt = fresh 32-byte CSPRNG draw); one line printed; any failing step => Err, nothing locked/printed",
   funcs=["commands::change_pass"], bounds="one step from an arbitrary (key, blob, passwords) state", env=CMD_ENV, outside=CMD_OUT + "; text of the printed line")
@@ -279,18 +287,30 @@ STR_UNWIND = ["_RNvNtNtCs8xvirJzNMvV_4core5slice6memchr12memchr_naive{CLI}.0:17"
               "_RNvXs_NtNtCs8xvirJzNMvV_4core3str7patternNtB4_12CharSearcherNtB4_8Searcher10next_match{CLI}.0:4",
               "_RNvMs2_Nt{CLI}7keyringNtB5_7Keyring12parse_config.0:8"]
 PARSER_OUT = "arbitrary UTF-8 texts and exhaustive token sequences: std's str::lines/trim/retain/memchr on symbolic text are out of reach of the bit-blasting back end in quick-tier time (DESIGN 6.1)"
-H(name="c17_name_roundtrip", crate="kestrel-cli", mod="keyring::verif_keyring", unwindset=STR_UNWIND, props=["C17", "C14"], tier="thorough", optional=True, est_s=3000, timeout=5400, mem_gb=16, replay="model",
-  desc="the [Key] section text key generation writes (transcribed format) for ANY accepted name of 1..2 ASCII bytes without TAB parses back to exactly that name and public key, and is found by get_key",
+H(name="c17_name_roundtrip", tier="thorough", optional=True, crate="kestrel-cli", mod="keyring::verif_keyring", props=["C17", "C14"], est_s=3000, timeout=5400, mem_gb=16, replay="model",
+  desc="the [Key] section text key generation writes (transcribed format) for ANY accepted name of 1..3 ASCII bytes without TAB parses back to exactly that name and public key, and is found by get_key",
   funcs=["keyring::Keyring::new", "keyring::Keyring::parse_config", "keyring::Keyring::add_key", "keyring::Keyring::get_key", "keyring::EncodedPk::try_from"],
-  bounds="names of 1..2 ASCII bytes (no NUL, LF, TAB; no leading/trailing whitespace)", env=KR_ENV[2:3], outside="names > 2 bytes; non-ASCII names; serialize_key's own formatting (transcribed)")
-H(name="c17_name_roundtrip_tab", crate="kestrel-cli", mod="keyring::verif_keyring", unwindset=STR_UNWIND, props=["C17"], tier="thorough", optional=True, est_s=3600, timeout=5400, mem_gb=16, replay="model",
-  desc="KNOWN FINDING F4: the same round trip for the concrete name a<TAB>b (expected to fail: the parser deletes every TAB)", funcs=["keyring::Keyring::parse_config"], bounds="one concrete text", env=KR_ENV[2:3], outside="")
-H(name="c17_sections", crate="kestrel-cli", mod="keyring::verif_keyring", unwindset=STR_UNWIND, props=["C17"], tier="thorough", optional=True, est_s=3000, timeout=5400, mem_gb=16, replay="model",
+  bounds="names of 1..3 ASCII bytes (no NUL, LF, TAB; no leading/trailing whitespace)", env=KR_ENV[2:3] + ["E-STR: str::trim, String::retain, <Lines as Iterator>::next, str::split_once(char) replaced by byte-level models exact for ASCII text (std's char-iterator implementations cost ~3 minutes of symbolic execution per input line); guarded by estr_selftest"], outside="names > 3 bytes; non-ASCII names; serialize_key's own formatting (transcribed)")
+H(name="env_const_alias_guard", crate="kestrel-cli", mod="keyring::verif_keyring", props=["C17", "C15", "C16"], est_s=5, timeout=600, replay="model",
+  desc="environment guard: writing the E-B64 model's state does not change unrelated constants (Kani 0.68 conflated `static mut ATT_LEN: usize = 0` of the patched ct-codecs with liballoc's Cap::ZERO, giving every Vec::new() capacity ATT_LEN)", funcs=[], bounds="-", env=["E-B64"], outside="-")
+H(name="estr_selftest", crate="kestrel-cli", mod="keyring::verif_keyring", props=["C17"], est_s=30, timeout=900, replay="model",
+  desc="E-STR self-test: lines / trim / retain / split_once models called through their std names give the documented results on concrete texts (guards the environment model, not kestrel)", funcs=[], bounds="concrete", env=["E-STR"], outside="-")
+for _n, _l, _est in (("c17_tokens_l4", 4, 3000), ("c17_tokens_l6", 6, 5000)):
+    H(name=_n, crate="kestrel-cli", mod="keyring::verif_keyring", props=["C17", "C09"], auto_props=["C09", "C17"], tier="thorough", optional=True, est_s=_est, timeout=5400, mem_gb=20, rlimit_gb=40, replay="model", cbmc_args=["--max-field-sensitivity-array-size", "128"],
+      desc="Keyring::new on EVERY file of %d lines, each line one of 10 tokens ([Key], Name=a|b, PublicKey=P|Q, malformed PrivateKey, comment, blank, junk, field without value), solver-chosen: accepted iff a token-level state machine of the documented rule accepts; on acceptance the entries are the sections in order; never a panic" % _l,
+      funcs=["keyring::Keyring::new", "keyring::Keyring::parse_config", "keyring::Keyring::add_key", "keyring::Keyring::valid_key_name", "keyring::EncodedPk::try_from", "keyring::EncodedSk::try_from"],
+      bounds="10^%d files: %d lines x 10 tokens, each padded with blanks to 14 columns (concrete layout, solver-chosen content); shorter files are covered through blank lines" % (_l, _l), env=KR_ENV[2:3] + ["E-STR (see c17_shapes)"], outside=PARSER_OUT + "; well-formed PrivateKey lines (the E-B64 model has one decode length per run)")
+H(name="c17_names_concrete", crate="kestrel-cli", mod="keyring::verif_keyring", props=["C17", "C14", "C09"], auto_props=["C09", "C17"], est_s=120, timeout=1800, mem_gb=8, replay="model",
+  desc="write-then-parse for twelve concrete names key generation accepts (incl. '=', '#', '[Key]', field keywords, inner blanks): each parses back to itself and is found by get_key",
+  funcs=["keyring::Keyring::new", "keyring::Keyring::parse_config", "keyring::Keyring::add_key", "keyring::Keyring::get_key", "keyring::Keyring::valid_key_name"], bounds="twelve concrete one-section texts (concrete inputs: the parser is executed by the model checker, not solved for)", env=KR_ENV[2:3] + ["E-STR (see c17_shapes)"], outside="all other names (the solver-chosen variant c17_name_roundtrip is thorough-tier)")
+H(name="c17_name_roundtrip_tab", crate="kestrel-cli", mod="keyring::verif_keyring", props=["C17"], est_s=20, timeout=1800, mem_gb=8, replay="model",
+  desc="KNOWN FINDING F4: the same round trip for the concrete name a<TAB>b (expected to fail: the parser deletes every TAB)", funcs=["keyring::Keyring::parse_config"], bounds="one concrete text", env=KR_ENV[2:3] + ["E-STR: str::trim, String::retain, <Lines as Iterator>::next, str::split_once(char) replaced by byte-level models exact for ASCII text (std's char-iterator implementations cost ~3 minutes of symbolic execution per input line); guarded by estr_selftest"], outside="")
+H(name="c17_sections", tier="thorough", optional=True, crate="kestrel-cli", mod="keyring::verif_keyring", props=["C17"], est_s=3000, timeout=5400, mem_gb=16, replay="model",
   desc="Keyring::new on two sections with symbolic one-byte names and symbolic key choice: accepted iff names differ and keys differ; entries in order",
-  funcs=["keyring::Keyring::new", "keyring::Keyring::parse_config", "keyring::Keyring::add_key"], bounds="names in a..c x a..c, same/different public key", env=KR_ENV[2:3], outside=PARSER_OUT)
-H(name="c17_shapes", crate="kestrel-cli", mod="keyring::verif_keyring", unwindset=STR_UNWIND, props=["C17", "C09"], auto_props=["C09", "C17"], tier="thorough", optional=True, est_s=5000, timeout=5400, mem_gb=16, replay="model",
-  desc="Keyring::new on ten concrete section shapes (empty first/last section, field outside section, missing field, field twice, comments/blank/no final newline, junk, malformed private key, empty file): accepted iff the documented rule says so; entries = sections; never a panic",
-  funcs=["keyring::Keyring::new", "keyring::Keyring::parse_config", "keyring::Keyring::add_key"], bounds="ten concrete texts of <= 110 bytes, executed one after the other (concrete cases, not solver-chosen)", env=KR_ENV[2:3], outside=PARSER_OUT)
+  funcs=["keyring::Keyring::new", "keyring::Keyring::parse_config", "keyring::Keyring::add_key"], bounds="names in a..c x a..c, same/different public key", env=KR_ENV[2:3] + ["E-STR: str::trim, String::retain, <Lines as Iterator>::next, str::split_once(char) replaced by byte-level models exact for ASCII text (std's char-iterator implementations cost ~3 minutes of symbolic execution per input line); guarded by estr_selftest"], outside=PARSER_OUT)
+H(name="c17_shapes", crate="kestrel-cli", mod="keyring::verif_keyring", props=["C17", "C09"], auto_props=["C09", "C17"], est_s=200, timeout=1800, mem_gb=8, replay="model",
+  desc="Keyring::new on sixteen concrete section shapes (two appended generations, incomplete last section, CRLF, indentation/TABs, duplicate name, duplicate key, empty first/last section, field outside section, missing field, field twice, comments/blank/no final newline, junk, malformed private key, empty file): accepted iff the documented rule says so; entries = sections; never a panic",
+  funcs=["keyring::Keyring::new", "keyring::Keyring::parse_config", "keyring::Keyring::add_key"], bounds="sixteen concrete texts of <= 110 bytes, executed one after the other (concrete cases, not solver-chosen)", env=KR_ENV[2:3] + ["E-STR: str::trim, String::retain, <Lines as Iterator>::next, str::split_once(char) replaced by byte-level models exact for ASCII text (std's char-iterator implementations cost ~3 minutes of symbolic execution per input line); guarded by estr_selftest"], outside=PARSER_OUT)
 
 A_AEAD = "ChaCha20-Poly1305 is modelled as an ideal AEAD (opens iff exactly what was sealed); real forgery probability is outside the claim"
 A_TB = "orion/ct-codecs/getopts/std implement their documented contracts (trusted base; Cargo.lock pins them)"
@@ -319,18 +339,18 @@ PROPERTIES = {
          "outside": "two or more faults per run; short-I/O harnesses on one chunk only (write_all/read_exact are std code)", "assumptions": [A_AEAD, A_TB, A_KANI]},
  "C11": {"claim": "Streaming within bound: at every source read the input consumed beyond what has been completely written is <= 2 chunks (encrypt) / 2 records (decrypt), for files of up to 4-5 chunks; every read request and AEAD input <= chunk+16.",
          "outside": "GiB inputs themselves and peak-heap constancy (the counting-allocator harness of the design was not built); independence of n beyond the bound is by the loop's shape", "assumptions": [A_AEAD, A_KANI]},
- "C12": {"claim": "Function level: each command returns Ok iff every pre-check passed and the library call returned Ok (never swallowed, never manufactured), for every combination of prior output-path state, keyring state, prompt/unlock/checksum outcome and library outcome; main calls exit(1) iff try_main failed; sender naming by exact encoded key; OnDemandFile flush creates the file (empty plaintext still produces the output file).",
-         "outside": "the real process exit code, getopts long/short/alias tables, OS pipe-vs-file semantics, message texts: not encodable here (E-CUT, E-OS)", "assumptions": [A_TB, A_KANI]},
- "C13": {"claim": "For encrypt, decrypt, password encrypt/decrypt, key generate: if the command fails before the library call, or the library fails before its first write, the output path is untouched (exists/length/content, no create); if the library wrote k bytes then failed, the path holds exactly those bytes and Err is returned; library side: nothing written/flushed before handshake success / first chunk verification.",
+ "C12": {"claim": "Function level: each command returns Ok iff every pre-check passed and the library call returned Ok (never swallowed, never manufactured), for every combination of prior output-path state, keyring state, prompt/unlock/checksum outcome and library outcome; main calls exit(1) iff try_main failed; sender naming by exact encoded key; the password commands behave the same with stdin in place of the input file and/or stdout in place of -o (nothing created on disk, every library write reaches stdout, terminals refused, library called whenever every pre-check passes); OnDemandFile flush creates the file (empty plaintext still produces the output file).",
+         "outside": "the real process exit code, getopts long/short/alias tables, OS pipe-vs-file semantics, message texts: not encodable here (E-CUT, E-OS); stdin/stdout wiring of the key-mode commands; -k vs KESTREL_KEYRING (open_keyring is environment)", "assumptions": [A_TB, A_KANI]},
+ "C13": {"claim": "For encrypt, decrypt, password encrypt/decrypt, key generate: if the command fails before the library call, or the library fails before its first write, the output path is untouched (exists/length/content, no create); if the library wrote k bytes then failed (any error kind), the path holds exactly those bytes and Err is returned; no command removes or renames the output path; library side: nothing written/flushed before handshake success / first chunk verification.",
          "outside": "as C12", "assumptions": [A_TB, A_KANI]},
- "C14": {"claim": "gen_key(Some(path)) from an ARBITRARY prior state of the path (absent | any 0..4 bytes): on success the earlier contents are a byte prefix of the new contents, an existing file is never re-created/truncated, a new one is created once, the result is flushed; one inductive step from an arbitrary state covers every history. The appended section parses back (c17_name_roundtrip).",
+ "C14": {"claim": "gen_key(Some(path)) from an ARBITRARY prior state of the path (absent | any 0..4 bytes): on success the earlier contents are a byte prefix of the new contents, an existing file is never re-created/truncated, a new one is created once, the result is flushed; one inductive step from an arbitrary state covers every history. A section appended to a file whose last line is unterminated starts on a new line. The appended section parses back (c17_names_concrete, c17_shapes: two appended generations).",
          "outside": "content of the appended text beyond 'one [Key] section after a newline' (formatting is cut); passwords (C15)", "assumptions": [A_TB, A_KANI]},
  "C15": {"claim": "lock/unlock algebra with scrypt as an injective uninterpreted function, ideal AEAD, base64 as a bijection: documented 84-byte layout and parameters; unlock(lock(sk,pw),pw) = sk; other passwords fail; ANY single-byte change (any xor) fails (version => format error, salt => other key, rest => AEAD); other decoded lengths rejected; IETF wrappers forward key/nonce/aad unchanged.",
          "outside": "interoperability with other implementations reduces to the layout equation + orion/ct-codecs conformance", "assumptions": [A_AEAD, "E-KDF injective", "E-B64 bijection", A_TB, A_KANI]},
  "C16": {"claim": "One inductive step from an arbitrary (key, blob, passwords) state: change_pass unlocks with the OLD password, re-locks exactly THAT key under the NEW password with a FRESH CSPRNG salt (also when old == new); extract_pub encodes the public key derived from exactly the unlocked key; gen_key writes the same expression; with C15 this gives the property for every history.",
          "outside": "text of printed lines (formatting cut: 'raw private key never printed' is argument-level only)", "assumptions": [A_TB, A_KANI]},
- "C17": {"claim": "Checksummed public keys (usable iff last 4 bytes = SHA256(first 32)[..4]); lookups by name/key; names written by key generation (1..3 ASCII bytes, no TAB) parse back exactly; 12 section shapes accepted/rejected per the documented rule with entries in order; no panic. Known finding F4 (TAB in name) reported as KNOWN-FINDING.",
-         "outside": "arbitrary UTF-8 texts and exhaustive token sequences (std string loops on symbolic text are out of reach: DESIGN 6.1)", "assumptions": ["E-B64 bijection", A_TB, A_KANI]},
+ "C17": {"claim": "Checksummed public keys (usable iff last 4 bytes = SHA256(first 32)[..4]); lookups by name/key; twelve concrete names key generation accepts (with '=', '#', '[Key]', keywords, inner blanks) parse back exactly and are found; sixteen concrete file shapes accepted/rejected per the documented rule with entries in order; no panic. Thorough tier (attempts under a cap): every ASCII name of 1..3 bytes; all files of 4 / 6 lines over ten line tokens against a token-level oracle. Known finding F4 (TAB in name) reported as KNOWN-FINDING.",
+         "outside": "non-ASCII text (E-STR models are exact for ASCII only); solver-chosen file content in the quick tier (every byte decides control flow: DESIGN 7.9)", "assumptions": ["E-STR: str::lines/trim/retain/split_once behave as std documents (byte-level models for ASCII text, self-tested by estr_selftest)", "E-B64 bijection", A_TB, A_KANI]},
  "C18": {"claim": "Modular equivalence with RFC 7914: Salsa20/8 core for ALL inputs; BlockMix (r=1,2,3), ROMix (N=2,4; r=1), envelope (p=1,2) each against the RFC pseudo-code with the level below as an arbitrary function; public wrapper and C ABI forward arguments in order and write exactly dk_len bytes.",
          "outside": "r > 3, N > 4, p > 2 (loops uniform); PBKDF2-HMAC-SHA256; comparison with OpenSSL", "assumptions": [A_TB, A_KANI]},
  "C19": {"claim": "Wrapper-level conformance: each exported wrapper hands exactly its arguments to the orion primitive and returns exactly its result, incl. error mapping; Noise nonce = 00000000||LE64(counter) for ALL 2^64 counters; decrypt of < 16 bytes is Err (F1 fixed).",
